@@ -19,7 +19,7 @@ Print Assumptions c08_reentered_reference_is_cyclic_partial.
 
 Theorem c08_cycle_is_an_error_partial : forall o dv fuel0 root a p sep,
   act_has (path_str p sep) a = true -> resolve_env o (path_str p sep) = None ->
-  ref_eval o dv fuel0 root a p sep = Err ECyclic "".
+  ref_eval o dv fuel0 root a p sep = mkerr a ECyclic "".
 Proof. exact reentered_reference_fails. Qed.
 Print Assumptions c08_cycle_is_an_error_partial.
 
